@@ -9,11 +9,15 @@ nested_json_to_flat_json(NestedJsonRenderer), flat_text_to_flat_json(FlatTextRen
 nested_text_to_flat_json(NestedTextRenderer) equals FlatJsonRenderer (strictly: types, floats by repr, bytes);
 Encoder().process of the four inputs (as the CLI prepares them) gives the same bytes; the wired node tree holds
 every flat index exactly once as member, replication factor or associated-field attribute, in flat order,
-and every other attribute is one of those nodes.
+and every other attribute is one of those nodes; every bitmap-linked value (class 33 value after 222000, marker value)
+hangs on the SAME owner in all four views: `-> N` column of the flat text == bitmap_links == attribute owners in the
+node tree == owners (label and value) in the nested JSON == owners in the nested text, for every subset.
 Tie: node tree, nested JSON (without the table-text `description`), nested JSON -> flat and the side conditions of
 the conversion theorem, model (driver op `views`) against implementation.
-Inputs: the shared generated pipeline (levels 0-2, compressed or not, 1-4 subsets), the shapes the property
-names (see SHAPES), every file of tests/data and 40 / all of tests/benchmark_data.
+Inputs: the shared generated pipeline (levels 0-2, compressed or not, 1-4 subsets; its structural values are the
+same in every subset), messages whose subsets differ in their bitmaps, attribute counts and replication counts
+(harness/c09gen.py: every bitmap operator kind, equal descriptor lists with other links included), the shapes the
+property names (see SHAPES), every file of tests/data and 40 / all of tests/benchmark_data.
 """
 import json
 import multiprocessing
@@ -42,8 +46,10 @@ META = dict(
          'every case (_partial: the link "every successful decode satisfies them" is not proved and is false for the open '
          'findings F11a-d/F15). Correspondence (node tree, nested JSON without table text, nested JSON -> flat, error family, '
          'side conditions) and the property oracle on the implementation (three conversions == flat JSON, four encodings '
-         'equal, every flat index held once) on generated messages of every construct, the shapes the property names and '
-         'the sample files. The two TEXT formats are not modelled in Lean: they are decided by the oracle only.',
+         'equal, every flat index held once, every bitmap-linked value under the same owner in flat text, bitmap_links, node '
+         'tree, nested JSON and nested text of every subset) on generated messages of every construct, messages whose subsets '
+         'have different bitmaps / attribute counts / replication counts (all five bitmap operators, equal descriptor lists '
+         'with different links included), the shapes the property names and the sample files. The two TEXT formats are not modelled in Lean: they are decided by the oracle only.',
     technique='Lean 4 theorems (mutual structural induction over the template and the node tree) + checked model/implementation '
               'correspondence + property oracle on the implementation',
     note='description strings (table text) are outside the model; meaning nodes surviving from an earlier subset and shared '
@@ -316,6 +322,16 @@ def check_one(ctx, ids, b, obs, model, tag=None, shrinker=None):
     if 'harness_error' in obs:
         raise core.MachineryError('observation failed: ' + obs['harness_error'])
     reported = False
+    exempt = (obs.get('owners') or {}).get('exempt')
+    if exempt:
+        # a class 33 value with an associated field is wired as a plain member, its link is not shown (C07 finding
+        # F11-C07-wire-qa33).  Reported as soon as KNOWN_FINDINGS.json lists it for C09, counted until then.
+        sig = {'kind': 'oracle', 'stage': 'owners', 'assoc_in_force_over': ['qa33'], 'qa_resumed': False}
+        if any(kf.get('status') == 'open' and kf.get('property') == PROP and core.finding_matches(kf, sig) for kf in ctx.findings):
+            ctx.violation('oracle owners: %d links of the flat view are not shown in the nested views (class 33 value with an associated field) (ids %s)' % (
+                exempt, (ids or [])[:40]), {'ids': ids, 'message_hex': b.hex() if b is not None else None}, signature=sig)
+        else:
+            ctx.count('owners-exempt:assoc-over-qa33', exempt)
     bad = oracle(obs)
     for stage, why in bad[:1]:
         ids2, b2, why2 = ids, b, why
@@ -482,8 +498,6 @@ def run_bitmaps(ctx, drv, treq, pool):
                 # what the wiring depends on besides the descriptors: same decoded descriptors as the subset before, other links
                 ctx.count('bitmap:same-descriptors-other-links')
                 ctx.count('bitmap:same-descriptors-other-links:op%d' % c.info['chain'][0]['kind'])
-            if ow.get('exempt'):
-                ctx.count('owners-exempt:assoc-over-qa33', ow['exempt'])
             check_one(ctx, c.ids, b, obs, model, tag='bitmaps')
 
 
